@@ -358,6 +358,10 @@ func (r *reader) scalar(k Kind, v *J, where string) *Exp {
 		if !numRe.MatchString(lit) {
 			// not a number at all; a leading '+' or spaces are outside the documented spellings
 			t := strings.TrimSpace(strings.TrimPrefix(strings.TrimSpace(lit), "+"))
+			if regexp.MustCompile(`^-?[0-9]+$`).MatchString(t) {
+				// leading zeros, a sign, surrounding blanks: digits that denote an integer, undocumented
+				t = regexp.MustCompile(`^(-?)0+([0-9])`).ReplaceAllString(t, "$1$2")
+			}
 			if intRe.MatchString(t) && t != "" {
 				n, _ := new(big.Int).SetString(t, 10)
 				if n.Cmp(intBounds[k][0]) >= 0 && n.Cmp(intBounds[k][1]) <= 0 {
@@ -384,6 +388,9 @@ func (r *reader) scalar(k Kind, v *J, where string) *Exp {
 		}
 		if !intRe.MatchString(lit) {
 			r.flag(Either, where, "integer written with fraction or exponent")
+		}
+		if strings.HasPrefix(lit, "-") && n.Sign() == 0 && (k == "KUint32" || k == "KUint64") {
+			r.flag(Either, where, "negative zero for an unsigned field")
 		}
 		return &Exp{Kind: "int", Int: n}
 	case "KFloat32", "KFloat64":
